@@ -107,6 +107,22 @@ func genLiveSegment(log *slog.Logger, vodFS fs.FS, a *asset, cfg *ResponseConfig
 		outSeg.seg = seg
 		outSeg.data = nil
 	}
+	if !isLast && outSeg.seg != nil && outSeg.seg.Styp != nil {
+		// The last segment of the VoD asset may carry the "lmsg" brand: the live stream loops on
+		styp := outSeg.seg.Styp
+		kept := make([]string, 0, 4)
+		hasLmsg := false
+		for _, brand := range styp.CompatibleBrands() {
+			if brand == "lmsg" {
+				hasLmsg = true
+				continue
+			}
+			kept = append(kept, brand)
+		}
+		if hasLmsg {
+			outSeg.seg.Styp = mp4.NewStyp(styp.MajorBrand(), styp.MinorVersion(), kept)
+		}
+	}
 	if isLast && outSeg.seg.Styp != nil {
 		outSeg.seg.Styp.AddCompatibleBrands([]string{"lmsg"})
 	}
